@@ -38,6 +38,9 @@ pub fn run(args: &Args, rep: &mut Report) {
     rep.exhaustive = Some(!args.miri());
     rep.notes.push("per image every prefix length 0..n-1 and every position of a failing / short / interrupted write call is enumerated (exhaustive per image); the images themselves are a sample".to_string());
     for (name, xml) in &models {
+        if crate::report::should_stop() {
+            break;
+        }
         let fsm = match parse_xml(xml) {
             Ok(f) => f,
             Err(e) => {
@@ -93,7 +96,7 @@ pub fn run(args: &Args, rep: &mut Report) {
         let mut ok_accepted: Vec<usize> = Vec::new();
         let mut panics: Vec<(usize, String)> = Vec::new();
         for cut in 0..image.len() {
-            if !args.keep(cut, 5) {
+            if !args.keep(cut, 5) || crate::report::should_stop() {
                 continue;
             }
             rep.evaluations += 1;
